@@ -35,6 +35,10 @@
 //	                (inherent TCP race; recorded, outcome not judged)
 //	literal         the schedules of the Lean theorems (`run`) against the probes of forced-parked
 //	notify-linger   the close notification end to end through the full client (notify.go)
+//	restart-scale   30–60 restart cycles on one proxy of the full client with objqueuemax 8–16, calls
+//	                attempted while the server is down (failed sends), two judged calls after each
+//	                restart (notify.go)
+//	idle-scale      25–40 server idle-close / reconnect cycles on one transport client
 package main
 
 import (
@@ -84,6 +88,9 @@ type Scenario struct {
 	OneWays      int    `json:"one_ways,omitempty"`     // notify-linger: one-way calls (never answered) before the first notification
 	Restarts     int    `json:"restarts,omitempty"`     // notify-linger: graceful restarts in a row (0 = 1)
 	GapMs        int    `json:"gap_ms,omitempty"`       // notify-linger: the next notification this long after the previous one
+	QueueMax     int    `json:"queue_max,omitempty"`    // restart-scale: the client's objqueuemax
+	Cycles       int    `json:"cycles,omitempty"`       // restart-scale / idle-scale: restart (idle close) cycles
+	DownCalls    int    `json:"down_calls,omitempty"`   // restart-scale: calls attempted during each down window
 }
 
 type callResult struct {
@@ -840,6 +847,19 @@ func execute(sc Scenario) (out outcome) {
 		time.Sleep(settle)
 		w.probeJudge("end", &out)
 
+	case "idle-scale":
+		// many idle-close / reconnect cycles on one client: the server closes every connection after
+		// ServerIdleMs without a request; each next call is issued as soon as the client has noticed
+		for c := 0; c < sc.Cycles; c++ {
+			r := wait(w.startCall(id(), true))
+			if !r.OK || !w.observeClose(&out) {
+				break
+			}
+			time.Sleep(delay)
+		}
+		wait(w.startCall(id(), true))
+		w.probeJudge("end", &out)
+
 	case "forced-late-recv":
 		g := w.hold("recv.closing", 0)
 		wait(w.startCall(id(), true))
@@ -1079,6 +1099,10 @@ func genScenarios(o *common.Opts, rng *rand.Rand) []Scenario {
 		}
 		scs = append(scs, Scenario{Kind: "notify-linger", CloseHow: "notify-linger", HasCallback: rng.Intn(2) == 0, ExtraPush: true, OneWays: 2 + rng.Intn(2), Restarts: 3,
 			GapMs: 100 + rng.Intn(700), PreCalls: 1, DelayMs: 50 + rng.Intn(101), LingerMs: 500 + rng.Intn(301)})
+		// scale: tens of restart cycles on one proxy with a small objqueuemax, calls while the server is
+		// down; tens of idle-close / reconnect cycles on one transport client
+		scs = append(scs, Scenario{Kind: "restart-scale", CloseHow: "restart", QueueMax: 8 + rng.Intn(9), Cycles: 30 + rng.Intn(31), DownCalls: 1 + rng.Intn(2)})
+		scs = append(scs, Scenario{Kind: "idle-scale", CloseHow: "server-idle", ServerIdleMs: 15 + rng.Intn(16), Cycles: 25 + rng.Intn(16), DelayMs: rng.Intn(4)})
 		scs = append(scs, Scenario{Kind: "notify-linger", CloseHow: "notify-linger", Restarts: 2, GapMs: 100 + rng.Intn(1900),
 			PreCalls: 1 + rng.Intn(2), DelayMs: 50 + rng.Intn(151), LingerMs: 500 + rng.Intn(501)})
 	}
@@ -1106,6 +1130,9 @@ const d14RepairedPrefix = "callBegin.1 callReconnect.1 markReconnected.1 callEnq
 	"callEnq.2 callRet.2 "
 const d14RepairedHandback = d14RepairedPrefix + "sTakeQ.0 sCheckLost.0 sHandback.0"
 const d14RepairedDone = d14RepairedPrefix + "sInnerDone.0"
+
+// fullClientKind: scenarios run through the full client (notify.go), not through the transport world
+func fullClientKind(k string) bool { return k == "notify-linger" || k == "restart-scale" }
 
 func b01(b bool) int {
 	if b {
@@ -1174,6 +1201,7 @@ func main() {
 	// run in parallel batches
 	outs := make([]outcome, len(scs))
 	nouts := make([]nOutcome, len(scs))
+	souts := make([]scaleOutcome, len(scs))
 	const batch = 48
 	aborted := false
 	for lo := 0; lo < len(scs) && !aborted; lo += batch {
@@ -1189,6 +1217,8 @@ func main() {
 				defer wg.Done()
 				if scs[i].Kind == "notify-linger" {
 					nouts[i] = executeNotify(scs[i])
+				} else if scs[i].Kind == "restart-scale" {
+					souts[i] = executeRestartScale(scs[i])
 				} else {
 					outs[i] = execute(scs[i])
 				}
@@ -1214,7 +1244,7 @@ func main() {
 	var idx []int
 	for i := range outs {
 		out := &outs[i]
-		if scs[i].Kind == "notify-linger" {
+		if fullClientKind(scs[i].Kind) {
 			continue
 		}
 		if out.sc.Kind == "notify" || !out.connsOK || strings.Contains(strings.Join(out.hist, " "), "E.") {
@@ -1224,6 +1254,12 @@ func main() {
 		q := out.sc.QueueLen
 		if q <= 0 {
 			q = 16
+		}
+		// the set of model states grows with the number of replaced connections whose goroutines may or
+		// may not have ended yet: histories with many reconnects are judged by the oracle only
+		if n := strings.Count(" "+strings.Join(out.hist, " "), " A."); n > 8 || len(out.hist) > 700 {
+			res.Histogram["model:too-many-connections-for-replay"]++
+			continue
 		}
 		lines = append(lines, fmt.Sprintf("admits tree %d %d %s", q, idle, strings.Join(out.hist, " ")))
 		idx = append(idx, i)
@@ -1300,13 +1336,43 @@ func main() {
 		}
 	}
 	for i := range scs {
+		if scs[i].Kind != "restart-scale" {
+			continue
+		}
+		so := &souts[i]
+		if so.harness != "" {
+			res.Note("restart-scale scenario not executed: %s", so.harness)
+			res.Histogram["restart-scale:harness-problem"]++
+			continue
+		}
+		fs := oracleRestartScale(so)
+		class := "restart-scale"
+		if len(fs) > 0 {
+			class += ":violating"
+		}
+		key, _ := json.Marshal(so.sc)
+		res.Count(string(key), class, true)
+		res.Histogram["restart-scale:cycles"] += so.cycles
+		res.Sample(map[string]interface{}{"scenario": so.sc, "impl": so.summary()})
+		for _, f := range fs {
+			res.Violate(common.Violation{Signature: f.sig, What: f.what,
+				Case: common.Case{Stream: "clientconn", Op: so.sc, Impl: so.summary()}})
+		}
+		if replay {
+			fmt.Printf("scenario: %s\nimpl: %s\n", key, so.summary())
+			for _, f := range fs {
+				fmt.Printf("VIOLATED %s — %s\n", f.sig, f.what)
+			}
+		}
+	}
+	for i := range scs {
 		if scs[i].Kind == "notify-linger" && nouts[i].harness != "" {
 			res.Note("notify-linger scenario not executed: %s", nouts[i].harness)
 			res.Histogram["notify-linger:harness-problem"]++
 		}
 	}
 	for i := range outs {
-		if scs[i].Kind == "notify-linger" {
+		if fullClientKind(scs[i].Kind) {
 			continue
 		}
 		out := &outs[i]
@@ -1381,7 +1447,7 @@ func main() {
 	if litAnswers[0] != common.NoModel {
 		for i := range outs {
 			out := &outs[i]
-			if scs[i].Kind == "notify-linger" {
+			if fullClientKind(scs[i].Kind) {
 				continue
 			}
 			if out.sc.Kind != "forced-parked" {
